@@ -50,6 +50,7 @@ build_shovel() {
 }
 case "${1:-}" in
   build) build; build_race; build_firstuse; build_shovel; exit 0 ;;
+  C20) build C20; build_shovel; exec "$BIN" run C20 --tier "${2:-${VERIF_TIER:-quick}}" ;;
   C19) build C19; build_shovel; exec "$BIN" run C19 --tier "${2:-${VERIF_TIER:-quick}}" ;;
   replay) build; exec "$BIN" replay "$ARG2" ;;
   C18) build C18; build_race C18; build_firstuse; exec "$BIN" run C18 --tier "${2:-${VERIF_TIER:-quick}}" --worker-exe "$BIN-race" ;;
